@@ -237,6 +237,8 @@ class Run:
         info['check'] = cands[0][1].strip('"')
         info['test'] = cands[0][2]
         info['test_name'] = cands[0][3]
+        # keep only the chosen test in the source (Kani may emit the same test twice -> duplicate definitions)
+        open(src_file, 'w').write(before + '\n' + info['test'] + '\n')
         cmd = ['cargo', 'kani', 'playback', '-Z', 'concrete-playback', '--', info['test_name']]
         env = dict(ENV)
         env['RUST_BACKTRACE'] = '0'
